@@ -57,6 +57,9 @@ def main():
         print("stored", [d.name for d in dirs])
         return
     in_repo = "--in-repo" in args
+    if "--only" in args:
+        only = set(args[args.index("--only") + 1].split(","))
+        dirs = [d for d in dirs if d.name.split("-")[-1] in only]
     for d in dirs:
         patch = d / "patch.diff"
         if in_repo:
